@@ -56,7 +56,8 @@ Patterns == {
     [kind |-> "any",   dirs |-> <<>>, stem |-> "a", ext |-> "py"]             \* **/a.py
 }
 
-Targets == {<<>>, <<"src">>, <<"gen">>}
+\* (the last one: an always-excluded directory of the project named as the target itself)
+Targets == {<<>>, <<"src">>, <<"gen">>, <<"build">>}
 
 CONSTANTS MaxPatterns,
           DirPatternPrefixFallback  \* TRUE: fnmatch(path, dir + "*") as coded at the pinned commit
